@@ -378,7 +378,7 @@ def p3_case(n, raising, parent, n_tasks, task_raising, loop_kind, kind="function
     calls = []
 
     def body(name, *args, **kwargs):
-        if kind != "function" and (args != (1, 2) or kwargs != {"k": 3}):
+        if kind in ("partial", "instance", "method") and (args != (1, 2) or kwargs != {"k": 3}):
             calls.append(("wrong-arguments", name, args, kwargs))
         calls.append(name)
         if name == stopper:
@@ -429,8 +429,19 @@ def p3_case(n, raising, parent, n_tasks, task_raising, loop_kind, kind="function
     ts = [T("t%d" % i) for i in range(n_tasks)]
     for t in ts:
         t.install_task(when=0.0)
-    for i in range(n):
-        defer(i)
+    if kind == "same-callable":
+        # the SAME callable with the same arguments handed over n times (an application that asks n times for one action):
+        # it is owed n calls, like n different ones
+        shared = make("same")
+        bound = Callable("same").method
+        for i in range(n):
+            if i % 2 == 0:
+                core.deferred(shared)
+            else:
+                core.deferred(bound, 1, 2, k=3)
+    else:
+        for i in range(n):
+            defer(i)
 
     if loop_kind == "run_once":
         for _ in range(4 * (n + n_tasks) + 16):
@@ -440,11 +451,13 @@ def p3_case(n, raising, parent, n_tasks, task_raising, loop_kind, kind="function
     else:
         drive_core_run(horizon=1.0)
 
-    exp_fns = list(range(n))
+    exp_fns = list(range(n)) if kind != "same-callable" else ["same"] * n
     if parent is not None:
         exp_fns += ["c0", "c1", "g0"]
     got_fns = [c for c in calls if not (isinstance(c, str) and c.startswith("t"))]
     got_tasks = [c for c in calls if isinstance(c, str) and c.startswith("t")]
+    if kind == "same-callable" and got_fns != exp_fns:
+        return ("same-callable-handed-over-%d-times-called-%d-times" % (len(exp_fns), len(got_fns)), got_fns), calls
     if sorted(map(str, got_fns)) != sorted(map(str, exp_fns)):
         missing = [f for f in exp_fns if f not in got_fns]
         dup = [f for f in set(got_fns) if got_fns.count(f) > 1]
@@ -492,6 +505,11 @@ def p3_cases(tier):
                                 if n >= 5 and n_tasks == 3:
                                     continue
                                 yield (n, tuple(raising) + extra, parent, n_tasks, traise, loop_kind)
+    # the same callable handed over several times in one batch
+    for loop_kind in ("run_once", "run"):
+        for n in range(2, nmax + 1):
+            for n_tasks, traise in ((0, ()), (2, ("t0",))):
+                yield (n, (), None, n_tasks, traise, loop_kind, "same-callable")
     # one member of the batch calls core.stop() (real run() loop): everything handed over before the loop ends is called
     for n in range(2, nmax):
         for stopper in range(n):
@@ -706,6 +724,79 @@ def p5_shard(item, deadline):
                      {"part": 5, "ops": [list(o) for o in ops], "late": late})
     return acc
 
+
+# ----------------------------------------------------------------------------- part 6: a handler acts on a task due at the same poll
+
+def p6_case(action, n_between, loop_kind):
+    """Tasks a, x0..x(n-1), b are installed in that order for time 1; a's handler suspends b, moves b to time 3, or
+    installs b again for the same time 1.  Under run_once() and under the real run() loop: b does not fire after being
+    suspended, fires once at its new time, never before it.  Returns (mismatch or None, log)."""
+    vclock.reset(0.0)
+    log = []
+
+    class Acting(task.OneShotTask):
+        def __init__(self, name, victim=None):
+            task.OneShotTask.__init__(self)
+            self.name = name
+            self.victim = victim
+
+        def process_task(self):
+            log.append((self.name, vclock.tm().get_time()))
+            if self.victim is not None:
+                if action == "suspend":
+                    self.victim.suspend_task()
+                elif action == "move":
+                    self.victim.install_task(when=3.0)
+                else:
+                    self.victim.install_task(when=1.0)
+
+    b = Acting("b")
+    a = Acting("a", b)
+    a.install_task(when=1.0)
+    xs = [Acting("x%d" % i) for i in range(n_between)]
+    for x in xs:
+        x.install_task(when=1.0)
+    b.install_task(when=1.0)
+    if loop_kind == "run_once":
+        try:
+            vclock.run_until(5.0)
+        except vclock.Livelock as err:
+            return ("livelock", str(err)), log
+    else:
+        drive_core_run(horizon=5.0)
+    expect = [("a", 1.0)] + [("x%d" % i, 1.0) for i in range(n_between)]
+    if action == "move":
+        expect.append(("b", 3.0))
+    elif action == "again":
+        expect.append(("b", 1.0))
+    got = [(n, round(t, 6)) for n, t in log]
+    if got != expect:
+        nb = sum(1 for n, t in got if n == "b")
+        what = ("fired-after-being-suspended" if action == "suspend" and nb else
+                "re-installed-task-fired-%d-times" % nb if nb != 1 else "re-installed-task-fired-at-another-time")
+        return ("handler-acts-on-a-task-due-at-the-same-poll:%s" % what, expect, got), log
+    return None, log
+
+
+def p6_cases():
+    for loop_kind in ("run_once", "run"):
+        for action in ("suspend", "move", "again"):
+            for n_between in (0, 1, 3):
+                yield (action, n_between, loop_kind)
+
+
+def p6_shard(item, deadline):
+    acc = Acc()
+    for c in item:
+        bad, log = p6_case(*c)
+        acc.case(("p6",) + c)
+        acc.traces += 1
+        acc.transitions += len(log)
+        acc.outcome("p6:%s" % ("ok" if bad is None else bad[0]))
+        if bad is not None:
+            acc.fail("sched:%s:%s" % (c[2], bad[0]), {"mismatch": bad, "case": c}, {"part": 6, "case": list(c)})
+    return acc
+
 # ----------------------------------------------------------------------------- entry points
 
 def run(tier, seed, deadline):
@@ -723,6 +814,9 @@ def run(tier, seed, deadline):
         acc.fail("sched:history-dependent:same-operations-give-another-result-the-second-time",
                  {"history": [list(x) for x in probe], "first": repr(a)[:300], "second": repr(b)[:300]}, {"part": "twice"})
 
+    cases6 = list(p6_cases())
+    run_shards(p6_shard, chunks(cases6, 3), deadline, into=acc)
+    acc.info["part6 cases (a handler acts on a task due at the same poll)"] = len(cases6)
     cases5 = list(p5_cases(tier))
     run_shards(p5_shard, chunks(cases5, 256), deadline, into=acc)
     acc.info["part5 cases (installs before the manager exists)"] = len(cases5)
@@ -770,6 +864,11 @@ def replay(case):
     if part == 4:
         bad, got = p4_case(tuple(case["order"]), tuple(case["removes"]), tuple(case["moves"]))
         return bad is None, "install due times %r, suspend %r, move %r -> %r fired %r" % (case["order"], case["removes"], case["moves"], bad, got)
+    if part == 6:
+        vclock.install()
+        bad, log = p6_case(*case["case"])
+        return bad is None, "a's handler does %r to b (both due at 1, %d tasks between) under %s -> fired %r %s" % (
+            case["case"][0], case["case"][1], case["case"][2], log, bad or "")
     if part == 5:
         vclock.install()
         bad, log = p5_case(tuple(tuple(o) for o in case["ops"]), case["late"])
